@@ -198,10 +198,11 @@ namespace cnl {
             auto const scientific_solution{_impl::solve_scientific(info)};
             auto const fixed_solution{_impl::solve_fixed(info)};
 
-            if (std::tuple{
-                        scientific_solution.num_significand_digits,
-                        -scientific_solution.num_chars}
-                > std::tuple{// NOLINT(hicpp-use-nullptr,modernize-use-nullptr)
+            if (scientific_solution.num_significand_digits > 0
+                && std::tuple{
+                           scientific_solution.num_significand_digits,
+                           -scientific_solution.num_chars}
+                        > std::tuple{// NOLINT(hicpp-use-nullptr,modernize-use-nullptr)
                              fixed_solution.num_significand_digits,
                              -fixed_solution.num_chars}) {
                 CNL_ASSERT(scientific_solution.num_significand_digits > 0);
